@@ -549,6 +549,10 @@ func mergePattern(a, b string) string {
 // Contains traverses through the registered handlers to see if
 // any of them matches the predicate test.
 func (m *Mux) Contains(test func(h Handler) bool) bool {
+	// The handler of the root resource is not a child of any node.
+	if m.root.hs != nil && test(m.root.hs.Handler) {
+		return true
+	}
 	return contains(m.root, test)
 }
 
